@@ -99,7 +99,6 @@ func (*compiler).VisitBinaryExpr [C06]
 
 // ================= C02: every operator application that type-checks has a consistent lowering =================
 // type classes: 1 Zahl, 2 Kommazahl, 3 Byte, 4 Wahrheitswert, 5 Buchstabe (IR: i64, double, i8, i1, i32)
-spec numericCls(k int) bool := k == 1 || k == 2 || k == 3
 spec irOfClass(k int) int := k
 // the compiler's descriptor object for a class
 spec descr(c *compiler, k int) ddpIrType :=
@@ -135,53 +134,28 @@ func (*compiler).commentNode
 func (*compiler).createTernary
   inline
 
-// --- unary operators (language rules: Betrag/Negation on numbers, a Byte operand gives a Zahl; nicht on Wahrheitswert;
-//     logisch nicht on Zahl/Byte) ---
-spec admissibleUn(op ast.UnaryOperator, k int) bool :=
-     ((op == ast.UN_ABS || op == ast.UN_NEGATE) && numericCls(k))
-  || (op == ast.UN_NOT && k == 4)
-  || (op == ast.UN_LOGIC_NOT && (k == 1 || k == 3))
-spec resultUn(op ast.UnaryOperator, k int) int :=
-  (op == ast.UN_ABS || op == ast.UN_NEGATE) ? (k == 3 ? 1 : k) : (op == ast.UN_NOT ? 4 : k)
-
+// --- unary operators: admissibility and result class come from the shared table in package ast ---
 func (*compiler).VisitUnaryExpr [C02]
   cases e.Operator in {ast.UN_ABS, ast.UN_NEGATE, ast.UN_NOT, ast.UN_LOGIC_NOT}
   cases tyClassOf(e.Rhs) in {1, 2, 3, 4}
-  requires e != nil && e.OverloadedBy == nil && admissibleUn(e.Operator, tyClassOf(e.Rhs))
+  requires e != nil && e.OverloadedBy == nil && ast.admissibleUn(e.Operator, tyClassOf(e.Rhs))
   assume wfCompiler(c)
   nopanic
-  ensures c.latestReturnType == descr(c, resultUn(e.Operator, tyClassOf(e.Rhs)))
-  ensures ir.irty(c.latestReturn) == irOfClass(resultUn(e.Operator, tyClassOf(e.Rhs)))
-  replay - replay_templates/c02_unary.sh - : op = e.Operator ; cls = tyClassOf(e.Rhs) ; res = resultUn(e.Operator, tyClassOf(e.Rhs))
+  ensures c.latestReturnType == descr(c, ast.resultUn(e.Operator, tyClassOf(e.Rhs)))
+  ensures ir.irty(c.latestReturn) == irOfClass(ast.resultUn(e.Operator, tyClassOf(e.Rhs)))
+  replay - replay_templates/c02_unary.sh - : op = e.Operator ; cls = tyClassOf(e.Rhs) ; res = ast.resultUn(e.Operator, tyClassOf(e.Rhs))
 
-// --- binary operators on numbers (language rules): arithmetic promotes Byte < Zahl < Kommazahl; durch always gives a
-//     Kommazahl; modulo and the bitwise operators work on Zahl/Byte and give a Byte only for two Bytes; shifts keep the
-//     left operand's type; comparisons give a Wahrheitswert ---
-spec arith(op ast.BinaryOperator) bool := op == ast.BIN_PLUS || op == ast.BIN_MINUS || op == ast.BIN_MULT
-spec bitwise(op ast.BinaryOperator) bool := op == ast.BIN_LOGIC_AND || op == ast.BIN_LOGIC_OR || op == ast.BIN_LOGIC_XOR
-spec shift(op ast.BinaryOperator) bool := op == ast.BIN_LEFT_SHIFT || op == ast.BIN_RIGHT_SHIFT
-spec ordering(op ast.BinaryOperator) bool := op == ast.BIN_LESS || op == ast.BIN_GREATER || op == ast.BIN_LESS_EQ || op == ast.BIN_GREATER_EQ
-spec intCls(k int) bool := k == 1 || k == 3
-spec admissibleBin(op ast.BinaryOperator, l int, r int) bool :=
-     ((arith(op) || op == ast.BIN_DIV || ordering(op)) && numericCls(l) && numericCls(r))
-  || ((op == ast.BIN_MOD || bitwise(op) || shift(op)) && intCls(l) && intCls(r))
-  || (op == ast.BIN_XOR && l == 4 && r == 4)
-spec resultBin(op ast.BinaryOperator, l int, r int) int :=
-  arith(op) ? ((l == 2 || r == 2) ? 2 : ((l == 3 && r == 3) ? 3 : 1)) :
-  (op == ast.BIN_DIV ? 2 :
-  ((op == ast.BIN_MOD || bitwise(op)) ? ((l == 3 && r == 3) ? 3 : 1) :
-  (shift(op) ? l : 4)))
-
+// --- binary operators on numbers: shared table in package ast ---
 func (*compiler).VisitBinaryExpr#2 [C02]
   cases e.Operator in {ast.BIN_XOR, ast.BIN_PLUS, ast.BIN_MINUS, ast.BIN_MULT, ast.BIN_DIV, ast.BIN_MOD, ast.BIN_LOGIC_AND, ast.BIN_LOGIC_OR, ast.BIN_LOGIC_XOR, ast.BIN_LEFT_SHIFT, ast.BIN_RIGHT_SHIFT, ast.BIN_LESS, ast.BIN_GREATER, ast.BIN_LESS_EQ, ast.BIN_GREATER_EQ}
   cases tyClassOf(e.Lhs) in {1, 2, 3, 4}
   cases tyClassOf(e.Rhs) in {1, 2, 3, 4}
-  requires e != nil && e.OverloadedBy == nil && admissibleBin(e.Operator, tyClassOf(e.Lhs), tyClassOf(e.Rhs))
+  requires e != nil && e.OverloadedBy == nil && ast.admissibleBin(e.Operator, tyClassOf(e.Lhs), tyClassOf(e.Rhs))
   assume wfCompiler(c)
   nopanic
-  ensures c.latestReturnType == descr(c, resultBin(e.Operator, tyClassOf(e.Lhs), tyClassOf(e.Rhs)))
-  ensures ir.irty(c.latestReturn) == irOfClass(resultBin(e.Operator, tyClassOf(e.Lhs), tyClassOf(e.Rhs)))
-  replay - replay_templates/c02_binary.sh - : op = e.Operator ; l = tyClassOf(e.Lhs) ; r = tyClassOf(e.Rhs) ; res = resultBin(e.Operator, tyClassOf(e.Lhs), tyClassOf(e.Rhs))
+  ensures c.latestReturnType == descr(c, ast.resultBin(e.Operator, tyClassOf(e.Lhs), tyClassOf(e.Rhs)))
+  ensures ir.irty(c.latestReturn) == irOfClass(ast.resultBin(e.Operator, tyClassOf(e.Lhs), tyClassOf(e.Rhs)))
+  replay - replay_templates/c02_binary.sh - : op = e.Operator ; l = tyClassOf(e.Lhs) ; r = tyClassOf(e.Rhs) ; res = ast.resultBin(e.Operator, tyClassOf(e.Lhs), tyClassOf(e.Rhs))
 
 // --- zwischen: three numbers, any mix of Zahl/Kommazahl/Byte, gives a Wahrheitswert ---
 func (*compiler).VisitTernaryExpr [C02]
@@ -189,7 +163,7 @@ func (*compiler).VisitTernaryExpr [C02]
   cases tyClassOf(e.Mid) in {1, 2, 3}
   cases tyClassOf(e.Rhs) in {1, 2, 3}
   requires e != nil && e.OverloadedBy == nil && e.Operator == ast.TER_BETWEEN
-  requires numericCls(tyClassOf(e.Lhs)) && numericCls(tyClassOf(e.Mid)) && numericCls(tyClassOf(e.Rhs))
+  requires ast.numericCls(tyClassOf(e.Lhs)) && ast.numericCls(tyClassOf(e.Mid)) && ast.numericCls(tyClassOf(e.Rhs))
   assume wfCompiler(c)
   nopanic
   ensures c.latestReturnType == descr(c, 4)
